@@ -49,6 +49,8 @@ def rebuild(proj: dict):
             return arr
         if car == "list":
             return arr.tolist()
+        if car == "tuple":
+            return tuple(arr.tolist())
         if car == "npscalar":
             return arr[()]
         if car.startswith("py"):
